@@ -7,18 +7,20 @@
 (*     (CPython is the environment here: the harness replays every         *)
 (*     generated behaviour on plain dict/list first and stops with a       *)
 (*     machinery failure if this part disagrees with CPython);             *)
-(*  2. C28 - the state machine (doc, committed, dirty) of one object with  *)
+(*  2. C29 - the meaning of the query operations on stored documents       *)
+(*     (Path, Truthy, Compare, Contains, Length, array Index/Slice) and    *)
+(*     transcriptions of the JSON path builders                            *)
+(*     (SQLBuilder.eval_json_path, PGSQLBuilder.eval_json_path), of the    *)
+(*     fallback path parser (dbproviders/sqlite.py:_parse_path) and of     *)
+(*     PostgreSQL's array-literal syntax, with the round-trip laws.        *)
+(*     Constant level: used through JsonDocTables / JsonDocJudge;          *)
+(*  3. C28 - the state machine (doc, committed, dirty) of one object with  *)
 (*     such an attribute inside a db_session: in-place mutations through   *)
 (*     the attribute or through an alias taken earlier, reads, Commit and  *)
 (*     Reopen (leave the db_session, load the object in a new one).        *)
 (*     Pony side: ormtypes.TrackedValue/TrackedDict/TrackedList/           *)
 (*     TrackedArray + tracked_method, core.Entity._attr_changed_,          *)
-(*     dbapiprovider.JsonConverter/ArrayConverter (validate, dbval2val);   *)
-(*  3. C29 - the meaning of the query operations on stored documents       *)
-(*     (Path, Truthy, Contains, Len, array Index/Slice) and transcriptions *)
-(*     of the JSON path builders (SQLBuilder.eval_json_path,               *)
-(*     PGSQLBuilder.eval_json_path) and of the fallback path parser        *)
-(*     (dbproviders/sqlite.py:_parse_path) with the round-trip law.        *)
+(*     dbapiprovider.JsonConverter/ArrayConverter (validate, dbval2val).   *)
 (*                                                                         *)
 (* Values are tagged records.  TLC must never compare 1 with "a", and it   *)
 (* compares records field by field in an order of its own, so each scalar  *)
@@ -627,6 +629,8 @@ DocsEpisode  == { D(<<>>), L(<<>>),
                   L(<<I(1), L(<<I(2), I(1)>>), D(<<KV("a", I(1))>>)>>),
                   D(<<KV("a", I(1)), KV("b", L(<<>>))>>),
                   L(<<D(<<>>), S("a")>>) }
+DocsEpisode2 == { D(<<KV("a", L(<<I(1)>>)), KV("b", D(<<KV("a", I(1))>>))>>),
+                  L(<<I(1), L(<<I(1)>>), D(<<>>)>>) }
 DocsEpisodeInt == { L(<<>>), L(<<I(2), I(1)>>), L(<<I(3), I(1), I(2)>>) }
 DocsEpisodeStr == { L(<<>>), L(<<S("b"), S("a")>>) }
 
